@@ -1021,3 +1021,34 @@ def main(ctx):
     ctx.histories("histories", [(("new", kw),) for kw in hcos], execute, depth=depth, nodedup_depth=depth,
                   bounds=dict(calls_max=depth - 1, operations=[repr(o) for o in OPS], cosmologies=[repr(k) for k in hcos],
                               key="fingerprint(__dict__) + parameter getters + bits of a 10-call battery"))
+
+    # ------------------------------------------- several live objects (process-wide state)
+    # up to 3 Cosmo objects of different parameters alive in one process (mc/worlds.py); the C struct of
+    # one object, or anything the extension keeps at module level, must not leak into another object
+    from mc.worlds import object_world
+    CK = {
+        "flat": dict(),
+        "open": dict(omega_m=0.3, omega_l=0.5, omega_k=0.2, flat=False),
+        "closed": dict(omega_m=0.4, omega_l=0.8, omega_k=-0.2, flat=False),
+        "h07": dict(h=0.7, omega_m=0.25, omega_l=0.75),
+    }
+    ZV = np.array([0.1, 0.5, 0.1, 2.0])
+
+    def c_do(c, kind, op):
+        if op[0] == "vec":
+            return [getattr(c, op[1])(0.05, ZV)]
+        if op[0] == "copy":
+            return [getattr(c.copy(), op[1])(op[2], op[3])]
+        if op[0] == "params":
+            return [c.H0(), c.DH(), c.omega_m(), c.omega_l(), c.omega_k(), float(c.flat())]
+        return [getattr(c, op[0])(*op[1:])]
+
+    def c_modules():
+        import esutil.cosmology.cosmology as cm
+        return [cm]
+
+    object_world(ctx, "several-objects", list(CK), lambda kind: Cosmo(**CK[kind]),
+                 [("Dc", 0.1, 1.0), ("Da", 0.2, 0.8), ("sigmacritinv", 0.2, 0.8), ("V", 0.0, 0.5), ("vec", "Dl"),
+                  ("copy", "Dm", 0.0, 1.5), ("params",)],
+                 c_do, c_modules, depth=ctx.pick(3, 4), nodedup_depth=ctx.pick(3, 4),
+                 state=lambda c: {k: v for k, v in c.__dict__.items() if k != "Distmod"})
